@@ -121,6 +121,26 @@ def run(ctx):
 
     for fname, c in load_corpus("C02"):
         one(c["doc"], "corpus")
+    # fixed findings F3 (byte order mark) and F13 (a wrapped line starting with a word like 'Endpoint'), deterministically
+    reg = os.path.join(tmp, "reg")
+    os.makedirs(reg, exist_ok=True)
+    with open(os.path.join(reg, "a.dec"), "w", encoding="utf-8-sig") as f:
+        f.write("Decay A\n1.0 b c PHSP;\nEnddecay\nEnd\n")
+    with open(os.path.join(reg, "b.dec"), "w", encoding="utf-8") as f:
+        f.write("Decay B\n1.0 b c HELAMP 1.0\nEndpoint 2.0;\nEnddecay\n  End # closing\n")
+    with open(os.path.join(reg, "c.dec"), "w", encoding="utf-8") as f:
+        f.write("# last file\nDefine dm 0.5\nDecay C\n1.0 b c VSS_BMIX dm;\nEnddecay")
+    base_text = "Decay A\n1.0 b c PHSP;\nEnddecay\nDecay B\n1.0 b c HELAMP 1.0 Endpoint 2.0;\nEnddecay\nDefine dm 0.5\nDecay C\n1.0 b c VSS_BMIX dm;\nEnddecay\n"
+    case = {"kind": "layout", "label": "regression F3/F13", "base": base_text, "packaging": "three files: BOM, wrapped 'Endpoint' line, indented End, no final line end"}
+    try:
+        a = snap_of(lambda: DecFileParser.from_string(base_text), True)
+        b = snap_of(lambda: DecFileParser(os.path.join(reg, "a.dec"), os.path.join(reg, "b.dec"), os.path.join(reg, "c.dec")), True)
+        if canon_json(a) != canon_json(b):
+            res.violation("answers differ between string input and the same statements packaged in files", case, clause="identical answers",
+                          impl=b.get("tables"), model=a.get("tables"))
+    except Exception as e:
+        res.violation(f"a rewritten input is rejected: {type(e).__name__}: {str(e)[:120]}", case, clause="rewritten input must parse")
+    res.case(canon_json(case))
     for i in range(n_docs):
         doc, info = gen.gen_doc(rng, cc=rng.random() < 0.5, copies=rng.random() < 0.4)
         one(doc, f"g{i}", heavy=acyclic(doc))
